@@ -98,6 +98,8 @@ def run_marked_batch(exe, cases, ctx, label, on_crash, timeout, parser, binary_o
                      prefix_cmd=()):
     sc = os.path.join(build.scratch_root(), 'b.%s.%d' % (label, os.getpid()))
     os.makedirs(sc, exist_ok=True)
+    if prefix_cmd:
+        os.chmod(sc, 0o777)          # the harness runs as another user
     for i, c in enumerate(cases):
         c.id = i
     results = {}
